@@ -106,6 +106,39 @@ def reqlinePrefix (o : Opts) (line : Bytes) : Int × Int :=
     else if l.getD (n - 10) 0 = sp then (ver, -1)
     else (ver, methodId (l.takeWhile (· ≠ sp)))
 
+/-- host part of http_request_parse(): http_request_host_policy() on r->http_host, Host required
+    from HTTP/1.1 on.  `none` = IPv6 literal (not modelled), `some none` = rejected (400) -/
+def hostPolicy (o : Opts) (schemePort : Nat) (r : PReq) : Option (Option PReq) :=
+  match r.host with
+  | none => if r.version ≥ 1 then some none else some (some r)
+  | some h =>
+    if h.head? = some 91 && (o.hostStrict || o.hostNormalize) then none else
+    let h1? : Option Bytes :=
+      if o.hostStrict then checkHostnameV4 h
+      else if h.any (fun b => b = 0 || b = cr || b = lf) then none else some h
+    match h1? with
+    | none => some none
+    | some h1 =>
+      let h2? := if o.hostNormalize then hostNormalizeV4 schemePort h1 else some h1
+      match h2? with
+      | none => some none
+      | some h2 =>
+        some (some { r with host := some h2,
+                            headers := r.headers.map fun (k, v) =>
+                              if k = ofString "host" then (k, h2) else (k, v) })
+
+/-- the cross-field rules at the end of http_request_parse() -/
+def postChecks (o : Opts) (r : PReq) (t : Target) : HeadRes :=
+  if r.version ≠ 1 && (hasTag r (ofString "upgrade") || hasTag r (ofString "http2-settings")) then .err 400
+  else if r.bodyLen = 0 then
+    if r.method = ofString "POST" && r.version ≤ 1 && !r.clSeen then .err 411 else .ok r t
+  else
+    let tecl := r.bodyLen = -1 && r.clSeen
+    if tecl && o.headerStrict then .err 400 else
+    let r := if tecl then { unsetHeader r (ofString "content-length") with keepAlive := false, clSeen := false } else r
+    if (r.method = ofString "GET" || r.method = ofString "HEAD") && !o.methodGetBody then .err 400
+    else .ok r t
+
 /-- http_request_parse() generalised over the protocol version (the 411 rule applies to
     HTTP/1.x only); equals `parsePost` of Model/H1Parse.lean for versions 0 and 1 -/
 def parsePostV (o : Opts) (schemePort : Nat) (ext : Bool) (r : PReq) : HeadRes :=
@@ -113,37 +146,10 @@ def parsePostV (o : Opts) (schemePort : Nat) (ext : Bool) (r : PReq) : HeadRes :
   match parseTarget o special r.target with
   | .error e => .err e
   | .ok t =>
-    let hostStep : Option (Option PReq) :=
-      match r.host with
-      | none => if r.version ≥ 1 then some none else some (some r)
-      | some h =>
-        if h.head? = some 91 && (o.hostStrict || o.hostNormalize) then none else
-        let h1? : Option Bytes :=
-          if o.hostStrict then checkHostnameV4 h
-          else if h.any (fun b => b = 0 || b = cr || b = lf) then none else some h
-        match h1? with
-        | none => some none
-        | some h1 =>
-          let h2? := if o.hostNormalize then hostNormalizeV4 schemePort h1 else some h1
-          match h2? with
-          | none => some none
-          | some h2 =>
-            some (some { r with host := some h2,
-                                headers := r.headers.map fun (k, v) =>
-                                  if k = ofString "host" then (k, h2) else (k, v) })
-  match hostStep with
-  | none => .skipV6
-  | some none => .err 400
-  | some (some r) =>
-    if r.version ≠ 1 && (hasTag r (ofString "upgrade") || hasTag r (ofString "http2-settings")) then .err 400
-    else if r.bodyLen = 0 then
-      if r.method = ofString "POST" && r.version ≤ 1 && !r.clSeen then .err 411 else .ok r t
-    else
-      let tecl := r.bodyLen = -1 && r.clSeen
-      if tecl && o.headerStrict then .err 400 else
-      let r := if tecl then { unsetHeader r (ofString "content-length") with keepAlive := false, clSeen := false } else r
-      if (r.method = ofString "GET" || r.method = ofString "HEAD") && !o.methodGetBody then .err 400
-      else .ok r t
+    match hostPolicy o schemePort r with
+    | none => .skipV6
+    | some none => .err 400
+    | some (some r) => postChecks o r t
 
 /-- write an accepted request into the request object (the fields http_request_parse_hoff() /
     http_request_parse() set on success) -/
